@@ -9,6 +9,9 @@
 (*  join.closed  after closing a join result: did Close()/Done() complete, *)
 (*               goroutine census of the long-lived bases before / after,  *)
 (*               do the bases still deliver                                *)
+(*  join.srcclosed  the SOURCE base was closed under a live join: the    *)
+(*               join must still be alive and following the destination     *)
+(*               (spec/JoinLife.tla: CloseHasCause, NeverUp)                 *)
 (*  join.end     goroutines left after the bases were shut down            *)
 (* The selection rule is Filters!WSelects; for the double join a pod is    *)
 (* selected by a service that is a backend of an ingress of its namespace. *)
@@ -73,11 +76,13 @@ Next == /\ i <= Len(Recs)
                                                  ELSE IF r.late_join \in {"blocked", "alive"} THEN "join-on-stopped-base" ELSE "")
                          [] r.k = "join.halfstopped" -> (IF r.res \in {"blocked", "alive"} THEN "join-on-stopped-base"
                                                          ELSE IF r.after > r.dst_closed THEN "join-leak" ELSE "")
+                         [] r.k = "join.srcclosed" -> (IF r.hung \/ r.src_hung THEN "join-close-hangs"         \* JoinLife.tla: CloseHasCause / NeverUp
+                                                       ELSE IF r.join_done \/ r.dst_done THEN "join-closed-by-source" ELSE "")
                          [] r.k = "join.error" -> "join-error"
                          [] OTHER -> "" IN
               IF c = "" THEN TRUE ELSE PrintT(<<"VERDICT", i, c, r>>)
            /\ prev' = IF r.k = "join.snap" THEN [known |-> r.quiet /\ r.ready.join /\ ~r.listerr, S |-> Range(r.joined)]
-                      ELSE IF r.k \in {"join.closed", "join.earlyclosed"} THEN [known |-> FALSE, S |-> {}] ELSE prev
+                      ELSE IF r.k \in {"join.closed", "join.earlyclosed", "join.srcclosed"} THEN [known |-> FALSE, S |-> {}] ELSE prev
         /\ i' = i + 1
 Spec == Init /\ [][Next]_vars
 Done == (i = Len(Recs) + 1) => PrintT(<<"CONSUMED", Len(Recs)>>)
